@@ -162,7 +162,7 @@ class PropertyCall:
         self.q, self.o = q, o
 
 
-SPEC_NAMES = {'TXT', 'ALL', 'SAME_ITEMS', 'MATCH', 'NOMATCH', 'UB', 'SORTED', 'SUFFIX'}
+SPEC_NAMES = {'TXT', 'ALL', 'SAME_ITEMS', 'MATCH', 'NOMATCH', 'UB', 'SORTED', 'SUFFIX', 'FRESH'}
 
 
 class ClosureEnv:
@@ -1054,6 +1054,29 @@ class Exec:
                     return [(s1, tuple(vals))]
             except (OutsideSubset, PyExc):
                 pass
+        ga = getattr(getattr(self, 'contract', None), 'genexp_asserts', None)
+        if ga and len(node.generators) == 1 and not node.generators[0].ifs and isinstance(node.generators[0].target, ast.Name):
+            # element obligations of a generator over an abstract sequence: the element expression is evaluated for
+            # an ARBITRARY element of the sequence, and the contract's assertions are proved about its value
+            g = node.generators[0]
+            ordn = str(getattr(self, '_genexp_count', 0))
+            self._genexp_count = getattr(self, '_genexp_count', 0) + 1
+            specs = ga.get(ordn)
+            if specs:
+                for s1, seq in self.eval(g.iter, st):
+                    if not (isinstance(seq, Rec) and seq.kind == 'aseq'):
+                        raise OutsideSubset('generator over %r' % (seq,))
+                    o = s1.objs[seq.oid]
+                    k = fresh_int('gen_k')
+                    s2 = s1.fork()
+                    s2.assume(z3.And(k.z >= 0, k.z < self.z_int(o['N'])))
+                    for s3, e in o['AT'](self, s2, k):
+                        s3.env[g.target.id] = e
+                        for s4, v in self.eval(node.elt, s3):
+                            for j, sp in enumerate(specs):
+                                self.goal('%s/genexp#%s.assert#%d' % (self.fn, ordn, j), s4,
+                                          self.spec(sp, s4, {'elem': v}), {'assert': sp})
+                return [(st, Opaque('genexp', (node, st)))]
         return [(st, Opaque('genexp', (node, st)))]
 
     def e_ListComp(self, node, st):
